@@ -2,5 +2,6 @@
 //!
 //! Every area has one binary under `src/bin/`; they share argument parsing, NDJSON I/O, the
 //! seeded RNG, the time/decimal conventions and the standard instrument "world".
+pub mod cmp;
 pub mod util;
 pub mod world;
